@@ -8,6 +8,7 @@ half-angle comparisons), which is where the C14 theorems start from.
 import RV.Generated.Geometry
 import RV.Model.Visibility
 import RV.Bridge.Maths
+import Mathlib.Tactic.Linarith
 namespace RV.Bridge.Geometry
 open RV.Generated RV.Py RV.Visibility
 
@@ -28,6 +29,31 @@ theorem rectInFieldOfView_eq (azP elP azB elB azFull elFull : Rat) :
   simp only [h]
   by_cases h1 : RV.Angles.absQ (RV.Angles.wrapNegPiPi PI TWOPI (azP - azB)) ≤ azFull / 2 <;>
     by_cases h2 : RV.Angles.absQ (elP - elB) ≤ elFull / 2 <;> simp [h1, h2]
+
+/-- `ConicFoV.inFieldOfView` on the separation angle the code computes: inside iff the angle is at most HALF the configured cone -/
+theorem conicInFieldOfView_eq (angle cone : Rat) : Geometry.conicInFieldOfView angle cone = decide (angle ≤ cone / 2) := rfl
+
+/-- the boresight itself (separation 0) is inside every cone; a wider cone admits whatever a narrower one admits -/
+theorem conic_reflexive (cone : Rat) (h : 0 ≤ cone) : Geometry.conicInFieldOfView 0 cone = true := by
+  rw [conicInFieldOfView_eq]; simp only [decide_eq_true_eq]; linarith
+
+theorem conic_mono (angle c1 c2 : Rat) (h : c1 ≤ c2) (h1 : Geometry.conicInFieldOfView angle c1 = true) :
+    Geometry.conicInFieldOfView angle c2 = true := by
+  rw [conicInFieldOfView_eq] at *; simp only [decide_eq_true_eq] at *; linarith
+
+/-- `Sensor.canSlew`: the target is reachable iff the mount, turning at its slew rate since it was last tasked, covers the angular
+distance to it -/
+theorem canSlew_eq (rate now last delta : Rat) : Geometry.canSlew rate now last delta = decide (delta ≤ rate * (now - last)) := rfl
+
+/-- waiting longer never makes a reachable target unreachable (non-negative slew rate) -/
+theorem canSlew_mono_time (rate now now' last delta : Rat) (hr : 0 ≤ rate) (ht : now ≤ now')
+    (h : Geometry.canSlew rate now last delta = true) : Geometry.canSlew rate now' last delta = true := by
+  rw [canSlew_eq] at *; simp only [decide_eq_true_eq] at *
+  have : rate * (now - last) ≤ rate * (now' - last) := mul_le_mul_of_nonneg_left (by linarith) hr
+  linarith
+
+/-- a target further than the budget is not reachable: rate 0.05 rad/s for 60 s covers 3 rad, not 3.1 -/
+example : Geometry.canSlew (1 / 20) 120 60 3 = true ∧ Geometry.canSlew (1 / 20) 120 60 (31 / 10) = false := by decide +kernel
 
 /-- non-vacuity: a satellite straight above a site is visible from it; the antipodal pair is not -/
 example : Geometry.lineOfSight (6378 * 7000) (6378 * 6378) (7000 * 7000) (6378 * 6378) = true ∧
